@@ -14,7 +14,26 @@ def api(draw, max_ops=5, links=None):
     for i in range(n):
         ops.append({"path": f"/r{i}", "behaviour": draw(st.sampled_from(BEHAVIOURS)), "with_example": draw(st.booleans()), "bounded": draw(st.booleans())})
     with_links = draw(st.booleans()) if links is None else links
-    return {"ops": ops, "links": with_links, "malformed": draw(st.integers(0, 5)) == 0, "binary_example": draw(st.integers(0, 7)) == 0, "link_target": draw(st.sampled_from(["ok", "ok", "500"]))}
+    return {"ops": ops, "links": with_links, "malformed": draw(st.integers(0, 5)) == 0, "binary_example": draw(st.integers(0, 7)) == 0, "link_target": draw(st.sampled_from(["ok", "ok", "500"])),
+            # how the API root answers the capability probe (only matters when the probing phase is enabled)
+            "probe": draw(st.sampled_from([None, None, "bad-gzip", "drop", "redirect-loop", "status-400", "truncated"]))}
+
+
+def probe_reply(api_: dict):
+    from vfw.harness import loopback
+
+    kind = api_.get("probe")
+    if kind == "bad-gzip":
+        return loopback.Reply(200, {"Content-Type": "application/json", "Content-Encoding": "gzip"}, b"this is not gzip")
+    if kind == "drop":
+        return loopback.Reply(close=True)
+    if kind == "redirect-loop":
+        return loopback.Reply(302, {"Location": "/"}, b"")
+    if kind == "status-400":
+        return loopback.Reply(400, {"Content-Type": "text/plain"}, b"bad header")
+    if kind == "truncated":
+        return loopback.Reply(200, {"Content-Type": "application/json", "Transfer-Encoding": "chunked"}, b"zz\r\nnot-a-chunk")
+    return None
 
 
 def build_doc(api_: dict) -> dict:
@@ -84,7 +103,7 @@ CHECK_SETS = [["not_a_server_error"], ["not_a_server_error", "status_code_confor
 @st.composite
 def config(draw, phases=None):
     all_phases = ["examples", "coverage", "fuzzing", "stateful"]
-    chosen = phases or draw(st.sampled_from([all_phases, ["coverage", "fuzzing", "stateful"], ["fuzzing"], ["coverage"], ["examples", "fuzzing"], ["stateful"], ["fuzzing", "stateful"]]))
+    chosen = phases or draw(st.sampled_from([all_phases, ["coverage", "fuzzing", "stateful"], ["fuzzing"], ["coverage"], ["examples", "fuzzing"], ["stateful"], ["fuzzing", "stateful"], ["probing"] + all_phases, ["probing", "fuzzing"], ["probing", "coverage"]]))
     return {
         "phases": chosen,
         "workers": draw(st.sampled_from([1, 1, 2, 3, 4])),
